@@ -172,7 +172,7 @@ def build_driver():
     if rc != 0:
         raise Broken("extraction (coq/Extract.v)", (out + err)[-3000:])
     sh("cp %s/*.ml ." % os.path.join(ROOT, "ocaml"), cwd=od)
-    rc, out, err = sh("ocamlfind ocamlopt -O3 -w -a model.mli model.ml engines.ml driver.ml -o driver", cwd=od, timeout=900)
+    rc, out, err = sh("ocamlfind ocamlopt -package str -linkpkg -O3 -w -a model.mli model.ml util.ml engines.ml driver.ml -o driver", cwd=od, timeout=900)
     if rc != 0 or not os.path.exists(drv):
         raise Broken("OCaml driver build", (out + err)[-3000:])
     return drv
